@@ -18,7 +18,7 @@ ENGINE_TRUSTED = [
     "extraction: Require Import ExtrOcamlBasic only (Extract Inductive for bool, option, unit, list, prod, sumbool, sumor); no Extract Constant; N/Z/positive/string stay Coq datatypes; OCaml 4.13.1 + ocaml/engine/driver.ml trusted for the correspondence only",
     "harness: harness/engine/inj/zz_verif_engine.go injected in package server by go build -overlay -tags verif; hooks verifManualClock/verifPoint (commit c7cc176) assumed behaviour-neutral",
     "modelled-not-verified: single shard (DBConcurrent=1), one database; Go runtime, sync.Mutex/atomics, PriorityMutex lanes; CAS protocol of GetOrNewLockManager/RemoveLockManager (modelled as atomic get-or-create / remove-when-unreferenced); sweeper driver loops checkTimeOut/checkExpried (replayed by the harness) and the millisecond wheels; free-list recycling of Lock objects (modelled as fresh allocation; harness runs with and without recycling); Go slice growth policy (grow_cap, observed via cap()); AofChannel is replaced by an idle channel that the harness drains; excluded by the properties: less-lock-version, unlock-to-wait, tree locks, reverse-key, EXECUTE data, keeplive, subscribe",
-    "granularity: each request / sweep / acknowledgement runs to completion (sequential schedules); interleavings inside the wake-up window are exercised by the scheduler variant where a check says so",
+    "granularity: each request / sweep / acknowledgement runs to completion (sequential schedules) except in the sched* profiles (step-granular schedules over the verifPoint yield points, model coq/Engine/Sched.v); interleavings inside the wake-up window are exercised by the scheduler variant where a check says so",
 ]
 
 
@@ -183,7 +183,9 @@ def run_engine_check(ctx, pid, profiles, monitors, n_quick, n_thorough, known_ok
         vlib.run_sub(ctx, subpid, module)
     if subs:
         vlib.merge_sub_evidence(cov, [sp for sp, _ in subs])
-    return ctx.finish(cov, assumptions=["sequential schedules at request/sweep granularity", "single shard, single database"])
+    sched = any(pr.startswith("sched") for pr, _ in profiles)
+    return ctx.finish(cov, assumptions=[("step-granular schedules (requests, wake-up iterations and sweeps interleaved at the verifPoint yield points) for the sched* profiles, " if sched else "") +
+                                        "sequential schedules at request/sweep granularity" + (" for the other profiles" if sched else ""), "single shard, single database"])
 
 
 def _still(run, case, name, sig):
